@@ -1,6 +1,7 @@
 package chain
 
 import (
+	"os"
 	"bytes"
 	"fmt"
 	"testing"
@@ -123,6 +124,26 @@ func quietTail(t *rapid.T, w *chainsim.World, m *chainsim.Monitor, adv *chainsim
 			}
 		}
 	}
+	// one-sided form of the same: a node cannot leave a block it has finalized (C04), so it never joins a chain that
+	// does not contain that block, however good; and the holder of the better chain has no reason to come over. That
+	// is what two disjoint quorums of different parameter sets produce (see QuorumsIntersectInHonest): not a sync failure
+	for _, a := range s.Nodes {
+		for _, b := range s.Nodes {
+			if !a.Up || !b.Up || a.IsAdversary || b.IsAdversary || a.ID == b.ID {
+				continue
+			}
+			f := b.Finalized()
+			if a.Tip().Height < f {
+				continue
+			}
+			ha, e1 := a.Chain.DataAccess().GetBlockHeaderByHeight(f)
+			hb, e2 := b.Chain.DataAccess().GetBlockHeaderByHeight(f)
+			if e1 == nil && e2 == nil && !bytes.Equal(ha.ID, hb.ID) {
+				simkit.Probe("c19_tail_chain_conflicts_with_a_peers_finalized_block_no_verdict")
+				return
+			}
+		}
+	}
 	simkit.Probe("c19_convergence_checked")
 	if maxH == minH {
 		simkit.Probe("c19_all_tips_at_same_height")
@@ -152,6 +173,7 @@ func quietTail(t *rapid.T, w *chainsim.World, m *chainsim.Monitor, adv *chainsim
 		// validators) apart below the tip. A fork deeper than that is never found and the sync gives up for good: a
 		// limit of the protocol's parameters (with 101 validators: about 2700 blocks), visible here only because a drawn
 		// validator set can have one or two members. No verdict on such runs.
+		forks := ""
 		for _, a := range s.Nodes {
 			for _, b := range s.Nodes {
 				if !a.Up || !b.Up || a.IsAdversary || b.IsAdversary || a.ID == b.ID {
@@ -173,6 +195,9 @@ func quietTail(t *rapid.T, w *chainsim.World, m *chainsim.Monitor, adv *chainsim
 					continue
 				}
 				depth := int(a.Tip().Height - x.Header.Height)
+				if a.ID < b.ID && x != ta && x != tb {
+					forks += fmt.Sprintf(" %s/%s fork after height %d (finalized %d/%d);", a.Name, b.Name, x.Header.Height, a.Finalized(), b.Finalized())
+				}
 				round := len(ta.BFT.ActiveValidators())
 				if depth > 26*round-round {
 					simkit.Probe("c19_tail_fork_deeper_than_common_block_search_no_verdict")
@@ -180,11 +205,40 @@ func quietTail(t *rapid.T, w *chainsim.World, m *chainsim.Monitor, adv *chainsim
 				}
 			}
 		}
+		if os.Getenv("VERIF_DUMPCHAINS") != "" {
+			for _, n := range s.Nodes {
+				if !n.Up {
+					continue
+				}
+				fmt.Fprintf(os.Stderr, "CHAIN %s fin=%d:", n.Name, n.Finalized())
+				var l []string
+				for x := m.Tree.ByID[string(n.Tip().ID)]; x != nil && x.Header.Height+24 > n.Tip().Height; x = x.Parent {
+					gi := -1
+					for _, v := range w.Vals {
+						if bytes.Equal(v.Address, x.Header.GeneratorAddress) {
+							gi = v.Index
+						}
+					}
+					l = append(l, fmt.Sprintf("%d/%x g%d mhg%d mhp%d byz=%v t%d", x.Header.Height, x.Header.ID[:3], gi, x.Header.MaxHeightGenerated, x.Header.MaxHeightPrevoted, x.ByzantineMade, x.Header.Timestamp%100000))
+				}
+				for i := len(l) - 1; i >= 0; i-- {
+					fmt.Fprintf(os.Stderr, " [%s]", l[i])
+				}
+				fmt.Fprintln(os.Stderr)
+			}
+			for _, v := range w.Vals {
+				isByz := false
+				for _, b := range w.Byz {
+					isByz = isByz || b.Index == v.Index
+				}
+				fmt.Fprintf(os.Stderr, "VAL %d byz=%v\n", v.Index, isByz)
+			}
+		}
 		for _, n := range s.Nodes {
 			if n.Up && !n.IsAdversary {
 				bad += fmt.Sprintf(" [%s log: %v]", n.Name, n.Log.Tail(3))
 			}
 		}
-		m.Report("C19", "convergence", "after-faults-stop", fmt.Sprintf("%d block slots after the last fault (network healed, bans lifted, all RPCs reliable) the honest nodes are not on one chain: %s | at the start of the quiet phase: %s", int(budget/w.BlockTime), bad, tipsBefore))
+		m.Report("C19", "convergence", "after-faults-stop", fmt.Sprintf("%d block slots after the last fault (network healed, bans lifted, all RPCs reliable) the honest nodes are not on one chain: %s |%s | at the start of the quiet phase: %s", int(budget/w.BlockTime), bad, forks, tipsBefore))
 	}
 }
